@@ -43,6 +43,74 @@ def run(repo, chk):
     rule_m(repo, chk)
     rule_resend(repo, chk)
     rule_reply_total(repo, chk)
+    rule_own_connections(repo, chk)
+    rule_auto_remote(repo, chk)
+
+
+def rule_auto_remote(repo, chk):
+    """auto_remote_event: a local event fired on one of the listed channels is forwarded to the peer (once) and its result comes back to whoever waits for the local
+    event."""
+    chk.rule('C19.q', 'Node.add registers one forwarding handler per listed channel (inside the loop that decorates it), and forwarding an event does not change the '
+                      'channels of the local event object (a copy goes over the wire)')
+    nd = repo.cls('circuits/node/node.py', 'Node')
+    a = need(nd.methods.get('add'), 'C19.q: Node.add missing')
+    chk.touch(a)
+    g = a.cfg()
+    defs = [n for n in g.nodes if n.kind == 'stmt' and isinstance(n.ast, ast.FunctionDef) and any('handler' in src(d) for d in n.ast.decorator_list)
+            and any(k == 'loop' for k, _a in n.ctx)]
+    need(defs, 'C19.q: Node.add defines no forwarding handler in a loop')
+    for d in defs:
+        loops = [x for x in d.ctx if x[0] == 'loop']
+        # the loops whose variable the decorator uses
+        used = [lp for lp in loops if any(isinstance(w, ast.Name) and w.id in {t.id for t in ast.walk(lp[1].target) if isinstance(t, ast.Name)}
+                                          for dec in d.ast.decorator_list for w in ast.walk(dec))]
+        regs = [n for n in g.nodes if n.kind == 'stmt' and any(r == 'self' and [src(x) for x in c.args] == [d.ast.name] for r, c in pat.method_calls(n.ast, 'addHandler'))]
+        ok = bool(regs) and all(all(lp in n.ctx for lp in used) for n in regs)
+        chk.ob('q', a.ref, 'the forwarding handler is registered once per event name and channel: inside every loop whose variable its decorator uses (handler() records the '
+                           'channel on the function: registering after the loop keeps the last channel only)', ok, loc(a, (regs or [d])[0].ast), discr='handler-per-channel')
+    r = need(_m(nd, '__on_remote'), 'C19.q: Node.__on_remote missing')
+    chk.touch(r)
+    gr = r.cfg()
+    params = set(r.params)
+    for n in gr.nodes:
+        if n.kind != 'stmt':
+            continue
+        for recv, attr, _v in pat.attr_store(n.ast):
+            if attr != 'channels' or recv not in params:
+                continue
+            ds = Q.reaching_defs(gr, n, recv)
+            fresh = bool(ds) and all(d.kind == 'stmt' and isinstance(d.ast, ast.Assign) and isinstance(d.ast.value, ast.Call) and
+                                     (call_name(d.ast.value) or '').split('.')[-1] in ('copy', 'deepcopy') for d in ds)
+            chk.ob('q', r.ref, 'the channels for the peer are set on a copy, not on the local event object (its done/success notifications are addressed by its channels)',
+                   fresh, loc(r, n.ast), detail=f'`{src(n.ast)[:80]}`', discr='forward-copy')
+
+
+def rule_own_connections(repo, chk):
+    """The node server reacts to the transport's events on a channel that other servers may share: the receive firewall of a server is only worth something if no
+    other node server builds a second protocol (with other firewalls) for the same connection."""
+    chk.rule('C19.p', 'the node server builds a Protocol only for connections accepted by its own transport, and feeds reads only to protocols it has built')
+    cls = repo.cls('circuits/node/server.py', 'Server')
+    cp = need(_m(cls, '__connect_peer'), 'C19.p: Server.__connect_peer missing')
+    chk.touch(cp)
+    g = cp.cfg()
+    sk = cp.params[1]
+    builds = [n for n in g.nodes if n.kind == 'stmt' and isinstance(n.ast, ast.Assign) and isinstance(n.ast.targets[0], ast.Subscript) and 'protocols' in src(n.ast.targets[0].value)]
+    need(builds, 'C19.p: the connect handler builds no protocol')
+    own = pat.test_edge(lambda tt, pol: (lambda fc: fc is not None and fc[0] == sk and fc[1] == 'in' and fc[2].startswith('self.server.'))(pat.compare_fact(tt, pol)))
+    for b in builds:
+        q = pat.guarded_by(g, b, own)
+        chk.ob('p', cp.ref, 'a protocol (with this server\'s firewalls) is built only for a connection of this server\'s own transport', q is None, loc(cp, b.ast),
+               path=pat.path_lines(q) if q else None, discr='protocol-for-own-connection')
+    rd = need(cls.methods.get('_on_read'), 'C19.p: Server._on_read missing')
+    chk.touch(rd)
+    gr = rd.cfg()
+    rk = rd.params[1]
+    raw = [n for n in gr.nodes if n.ast is not None and n.kind in ('stmt', 'test') and any(isinstance(w, ast.Subscript) and 'protocols' in src(w.value) and src(w.slice) == rk
+                                                                                             for w in ast.walk(n.ast))]
+    known = pat.test_edge(lambda tt, pol: (lambda fc: fc is not None and fc[0] == rk and fc[1] == 'in' and 'protocols' in fc[2])(pat.compare_fact(tt, pol)))
+    okr = all(pat.guarded_by(gr, n, known) is None for n in raw)
+    chk.ob('p', rd.ref, 'a read of a connection this server has no protocol for (another server\'s connection) is ignored', okr, loc(rd, (raw or [gr.entry])[0].ast) if raw else loc(rd, rd.node),
+           discr='read-of-known-connection')
 
 
 def rule_reply_total(repo, chk):
